@@ -405,17 +405,17 @@ def exec (regs : List RVal) (frames : List Frame) (c : Cmd) : M (List RVal × Li
     match frames with
     | [] => throw .unsupported
     | fr :: rest =>
-      -- whatever happens the frame is left
-      let fail (e : Err) : M (List RVal × List Frame) := pure ([if e = .dead then .dead else .dead], rest)
       match regs[ret]? with
       | some (.val v) =>
         if retAnn.mode = .const then throw .notAllowed
         else if fr.params.all (fun p => isLiteralScalar p.2) then throw .notAllowed
-        else match v.child with
-          | none => fail .T
-          | some c => do
+        else match v with
+          -- `isinstance(child, return_type)` (repaired F-C03-1) and `child.child.id`
+          | .scalar t (some c) _ =>
+            if t ≠ retAnn then throw .T else do
             put fr.fid (.function fr.name (fr.params.map (·.1)) c (.scalar retAnn.mirName))
             pure ([.fn fr.fid retAnn fr.params.length], rest)
+          | _ => throw .T
       | some .dead | none => throw .dead
       | _ => throw .unsupported
   | .call f args =>
